@@ -42,6 +42,12 @@ func flagOr(name, def string) string {
 
 const sigReadAfterPut = "queued-packet-read-after-put"
 
+// sigNewPackerRace (found in round 6 on the unchanged tree): the set-up goroutine of a NAT entry calls
+// entry.serverConnUnpacker.NewPacker() without the relay mutex after the entry was published, while the
+// receive loop (under the mutex) unpacks the entry's next datagram; for the SOCKS5 server unpacker the
+// value-receiver call copies the struct whose domain cache pointer UnpackInPlace initialises lazily.
+const sigNewPackerRace = "socks5-unpacker-newpacker-during-setup-race"
+
 type raceReport struct {
 	text string
 	sig  string // "" = not in repository code
@@ -74,6 +80,9 @@ func splitRaces(out string) []raceReport {
 		switch {
 		case strings.Contains(blk, "direct.(*DirectPacketClientPacker)."):
 			r.sig = sigSharedPacker
+		case strings.Contains(blk, "direct.(*Socks5PacketServerUnpacker).NewPacker()") && strings.Contains(blk, "socks5.(*DomainCache).ConnAddrFromSlice()"):
+			// exactly the two accesses that were analysed; any other unpacker type stays "data-race"
+			r.sig = sigNewPackerRace
 		case uplink && recv && len(tops) == 2:
 			// the uplink goroutine touches a queued packet that the receive loop has already taken
 			// back from the pool (the uplink reads queuedPacket.length for its statistics after
@@ -140,6 +149,9 @@ func TestRaceStage(t *testing.T) {
 				t.Fatalf("SIG=C11/%s detector=race-report (workload %s): sessions of one `direct` client share one DirectPacketClientPacker; its cachedDomain/cachedDomainIP "+
 					"are read and written by the uplink goroutines of different sessions without synchronisation, so one session can send to the IP another session resolved\n%s",
 					sigSharedPacker, name, r.text)
+			case r.sig == sigNewPackerRace:
+				t.Fatalf("SIG=C11/%s detector=race-report (workload %s): the session set-up goroutine calls serverConnUnpacker.NewPacker() without the relay mutex while the receive loop "+
+					"already unpacks the same entry's next datagram (lazy initialisation of the SOCKS5 unpacker's domain cache)\n%s", sigNewPackerRace, name, r.text)
 			case r.sig == sigReadAfterPut:
 				t.Fatalf("SIG=C11/%s detector=race-report (workload %s): the uplink goroutine reads a queued packet after handing it back to the pool while the receive loop "+
 					"already refills it\n%s", sigReadAfterPut, name, r.text)
